@@ -13,6 +13,8 @@ def dispatch (op : String) (args : List Sexp) : String :=
   | "slc.writereq" => opSlcWriteReq args
   | "slc.reply" => opSlcReply args
   | "k.plan" => opKPlan args
+  | "k.msg" => opKMsg args
+  | "k.readreply" => opKReadReply args
   | "k.masks" => opKMasks args
   | "k.boolwin" => opKBoolWin args
   | "k.keep" => opKKeep args
